@@ -484,7 +484,7 @@ def check_C08(chk, tier, seed):
             chk.violation("the connection loop did not call the handler exactly once per request in order and write exactly its answers (or did not stop at the first "
                           "malformed frame / handler failure)" + (": the connection task never completed" if "HANG" in im else "") + (": it panicked" if "panicked" in im else ""),
                           dict(case=c, scenario=kind, impl=short(im, 3000), expected=short(exp, 3000)))
-        elif ok and im != mo:
+        elif ok and strip_consumed(im) != strip_consumed(mo):      # how far a served connection has read AHEAD is not part of the property (a buffered reader may)
             chk.corr_break("observation differs from the model", dict(case=short(c, 4000), impl=short(im, 2000), model=short(mo, 2000)))
         if i % max(1, len(sc) // 6) == 0:
             chk.sample(dict(case=c, impl=short(im, 200), P=ok))
@@ -579,7 +579,7 @@ def check_C09(chk, tier, seed):
             chk.violation("after a connection loss the task did not terminate cleanly having called the handler for exactly the requests that had arrived completely "
                           "and written exactly (a prefix of) their answers" + (": it never completed" if "HANG" in im else "") + (": it panicked" if "panicked" in im else ""),
                           dict(case=c, kind=kind, impl=short(im, 3000), expected=short(exp, 3000)))
-        elif ok and im != mo:
+        elif ok and strip_consumed(im) != strip_consumed(mo):      # how far a served connection has read AHEAD is not part of the property (a buffered reader may)
             chk.corr_break("observation differs from the model", dict(case=c, impl=short(im, 2000), model=short(mo, 2000)))
         if i % max(1, len(cases) // 6) == 0:
             chk.sample(dict(case=c, impl=short(im, 200), P=ok))
